@@ -61,6 +61,7 @@ package pipe
 //@ func Map
 //@   requires f != nil
 //@   go 0:
+//@     loops 1
 //@     opt takes=out,exx
 //@     opt inputs=in
 //@     opt lemmas=tmapok_mono,tprefix_init
@@ -81,6 +82,7 @@ package pipe
 //@ func Filter
 //@   requires f != nil
 //@   go 0:
+//@     loops 1
 //@     opt takes=out
 //@     opt inputs=in
 //@     opt lemmas=tfilter_mono,tprefix_init
@@ -95,6 +97,7 @@ package pipe
 //@ func Take
 //@   requires n >= 0
 //@   go 0:
+//@     loops 1
 //@     opt takes=out
 //@     opt inputs=in
 //@     opt lemmas=tprefix_init
@@ -112,6 +115,7 @@ package pipe
 //@ func TakeWhile
 //@   requires f != nil
 //@   go 0:
+//@     loops 1
 //@     opt takes=out
 //@     opt inputs=in
 //@     opt lemmas=tprefix_init
@@ -127,6 +131,7 @@ package pipe
 //@ func Partition
 //@   requires f != nil
 //@   go 0:
+//@     loops 1
 //@     opt takes=lout,rout
 //@     opt inputs=in
 //@     opt lemmas=tfilter_mono,tprefix_init
@@ -141,6 +146,7 @@ package pipe
 //@ func Fold
 //@   requires m != nil
 //@   go 0:
+//@     loops 1
 //@     opt takes=done
 //@     opt inputs=in
 //@     requires m != nil && slots(done) >= 1
@@ -155,6 +161,7 @@ package pipe
 //@ func ForEach
 //@   requires f != nil
 //@   go 0:
+//@     loops 1
 //@     opt takes=done
 //@     opt inputs=in
 //@     requires f != nil
@@ -165,6 +172,7 @@ package pipe
 
 //@ func Void
 //@   go 0:
+//@     loops 1
 //@     opt takes=done
 //@     opt inputs=in
 //@     loop 0 invariant !closed(done) && !sawCancel && sent(done) == []
@@ -175,12 +183,14 @@ package pipe
 // ---- Seq / ToSeq: identity ----
 
 //@ func Seq
+//@   loops 1
 //@   props C05 C06
 //@   ensures result != nil && closed(result)
 //@   ensures holds_the_elements_in_order: sent(result) == tol([], xs)
 //@   loop 0 invariant own(out) && !closed(out) && slots(out) == len(rest) && tol(sent(out), rest) == tol([], xs)
 
 //@ func ToSeq
+//@   loops 1
 //@   props C05 C06
 //@   ensures the_elements_in_order: result == tolist(rcvd(ch)) && drained(ch)
 //@   requires rcvd(ch) == []
@@ -257,6 +267,7 @@ package pipe
 //@ func FMap
 //@   requires fmap != nil
 //@   go 0:
+//@     loops 1
 //@     opt takes=out,exx
 //@     opt inputs=in
 //@     requires fmap != nil && out != exx
@@ -276,6 +287,7 @@ package pipe
 //@   props C06 C07 C11
 //@   requires f != nil && cap >= 0
 //@   go 0:
+//@     loops 1
 //@     props C06 C07 C11
 //@     opt takes=out,exx
 //@     opt overflow=off
@@ -296,6 +308,7 @@ package pipe
 //@   props C06 C07 C11
 //@   requires f != nil && cap >= 0
 //@   go 0:
+//@     loops 1
 //@     props C06 C07 C11
 //@     opt takes=out,exx
 //@     ghost seed0 := seed
@@ -313,10 +326,12 @@ package pipe
 // ---- Join: every copier forwards its input in order; out closes after all copiers ----
 
 //@ func Join
+//@   loops 1
 //@   props C06 C12
 //@   ensures result != nil
 //@   loop 0 invariant own(out) && !closed(out) && sent(out) == [] && !closerSpawned && added == len(in) && spawned == idx && shares(out) == idx && idx + len(rest) == len(in)
 //@   go 0:
+//@     loops 1
 //@     props C06 C12
 //@     opt shares=out
 //@     opt inputs=c
@@ -339,6 +354,7 @@ package pipe
 //@   props C06 C13
 //@   requires ops >= 0
 //@   go 0:
+//@     loops 2
 //@     props C06 C13
 //@     opt takes=ctl
 //@     opt overflow=off
@@ -348,6 +364,7 @@ package pipe
 //@     ensures closes_tokens_only_on_cancel: closed(ctl) && sawCancel
 //@     ensures [C13] ops_tokens_per_interval: len(sent(ctl)) <= sleeps * ops + ops
 //@   go 1:
+//@     loops 1
 //@     props C06 C13
 //@     opt takes=out
 //@     opt inputs=in,ctl
@@ -418,6 +435,7 @@ package pipe
 //@   props C08
 //@   requires cap >= 0
 //@   go 0:
+//@     loops 4
 //@     props C08
 //@     opt takes=eg
 //@     opt closes=in
